@@ -106,8 +106,17 @@ theorem C04_accept (c : Trace.Code) (O : Trace.Options) (ext : Ext) (n : String)
   ⟨_, C04_fromType_ok c O h0 n fs hw hm hb,
     C04_accept_traced c O ext n fs vs _ h0 hfrag hsz hwt hsc (C04_fromType_ok c O h0 n fs hw hm hb) hcap⟩
 
+/-- the number of records is within the size bound of `C04_physical` whenever the batch is within the capacity bound -/
+theorem length_of_cap (ext : Ext) (t : Ty) (vs : List Val)
+    (hcap : ((vs.map (ser t)).map (vsize ext)).sum ≤ 2147483647) : vs.length ≤ 9223372036854775807 := by
+  have := Build.length_le_vsize_sum ext (vs.map (ser t))
+  rw [List.length_map] at this
+  omega
+
 /-- **C04 end to end against a traced schema**: serialization against the schema `from_type` returned succeeds, and reading
-everything back returns the batch, normalised (`norm` is the identity for `plainOpt` types: `C04_norm_eq_self`). -/
+everything back returns the batch, normalised (`norm` is the identity for `plainOpt` types: `C04_norm_eq_self`).  The
+conclusion no longer has a premise about the arrays: `Read.physical` is derived from `hcap` (`C04_physical`).  `_partial`
+because of `hext` only. -/
 theorem C04_end_to_end_traced_partial (c : Trace.Code) (O : Trace.Options) (ext : Ext) (n : String) (fs : TFields) (vs : List Val)
     (fields : List Field)
     (h0 : O.overwrites = []) (hfrag : fragE (.struct n fs) = true) (hsz : sized (.struct n fs) = true) (hne : fs ≠ .nil)
@@ -117,19 +126,19 @@ theorem C04_end_to_end_traced_partial (c : Trace.Code) (O : Trace.Options) (ext 
     (hft : Trace.fromType c O (toTraceTy (.struct n fs)) = .ok fields)
     (hcap : ((vs.map (ser (.struct n fs))).map (vsize ext)).sum ≤ 2147483647) :
     ∃ arrs, toMarrow ext fields (vs.map (ser (.struct n fs))) = .ok arrs ∧
-      ((∀ a ∈ arrs, Read.physical a = true) →
-        readAll (toTarget (.struct n fs)) fields arrs = .ok (vs.map fun v => dvalOf (.struct n fs) (norm (.struct n fs) v))) := by
+      readAll (toTarget (.struct n fs)) fields arrs = .ok (vs.map fun v => dvalOf (.struct n fs) (norm (.struct n fs) v)) := by
   obtain ⟨arrs, htm⟩ := C04_accept_traced c O ext n fs vs fields h0 hfrag hsz hwt hsc hft hcap
-  exact ⟨arrs, htm, fun hphys =>
-    C04_roundtrip_bulk_partial c O ext n fs vs fields arrs h0 hfrag hne hwt hsc hext hphys hft htm⟩
+  exact ⟨arrs, htm,
+    C04_roundtrip_bulk_partial c O ext n fs vs fields arrs h0 hfrag hne hwt hsc hext (length_of_cap ext _ vs hcap) hft htm⟩
 
 /-- **C04 end to end** — the property itself: for a record type of the grammar (enums included) with at least one field that
 can be walked and mapped within the pass budget, `from_type` returns a schema, serializing any batch of well-typed values in
 scope against it succeeds, and reading everything back returns the batch, normalised.
 `_partial`, exactly because of `hext` (the external chrono parsers return values in range: asked unconditionally by
-`Props.C01.C03_wfS'`, irrelevant for traced schemas, which have no temporal column) and `hphys` in the conclusion
-(`Read.physical`: the value count of a Dictionary column fits `i64` — true of any array in memory, not derivable for Lean's
-unbounded lists).  Everything else is a decidable condition on type × options (`fragE`, `sized`, `walkable`, `mappable`;
+`Props.C01.C03_wfS'`, irrelevant for traced schemas, which have no temporal column; a theorem at the codec models:
+`C04_end_to_end_codec` below has NO residual hypothesis).  The former premise `hphys` of the conclusion (`Read.physical`: the
+value count of a Dictionary column fits `i64`) is gone: derived from `hcap` (`C04_physical`, the builders' counting invariant).
+Everything else is a decidable condition on type × options (`fragE`, `sized`, `walkable`, `mappable`;
 NO `Safe` / `safeFs`), the documented exclusion `inScopeO` on the values, the pass budget and the capacity bound. -/
 theorem C04_end_to_end_partial (c : Trace.Code) (O : Trace.Options) (ext : Ext) (n : String) (fs : TFields) (vs : List Val)
     (h0 : O.overwrites = []) (hfrag : fragE (.struct n fs) = true) (hsz : sized (.struct n fs) = true) (hne : fs ≠ .nil)
@@ -142,16 +151,19 @@ theorem C04_end_to_end_partial (c : Trace.Code) (O : Trace.Options) (ext : Ext) 
     (hcap : ((vs.map (ser (.struct n fs))).map (vsize ext)).sum ≤ 2147483647) :
     ∃ fields arrs, Trace.fromType c O (toTraceTy (.struct n fs)) = .ok fields ∧
       toMarrow ext fields (vs.map (ser (.struct n fs))) = .ok arrs ∧
-      ((∀ a ∈ arrs, Read.physical a = true) →
-        readAll (toTarget (.struct n fs)) fields arrs = .ok (vs.map fun v => dvalOf (.struct n fs) (norm (.struct n fs) v))) := by
+      readAll (toTarget (.struct n fs)) fields arrs = .ok (vs.map fun v => dvalOf (.struct n fs) (norm (.struct n fs) v)) := by
   have hft := C04_fromType_ok c O h0 n fs hw hm hb
   obtain ⟨arrs, htm, hread⟩ := C04_end_to_end_traced_partial c O ext n fs vs _ h0 hfrag hsz hne hwt hsc hext hft hcap
   exact ⟨_, arrs, hft, htm, hread⟩
 
-/-- **C04 end to end at the codec models**: with the external string parsers instantiated by the models of C14
-(`Props.C16.codecExt`, what the correspondence driver runs), `ExtOK` is a theorem (`Props.C03.codecExt_ok`) and the
-hypothesis `hext` disappears.  `_partial` only because of `hphys` in the conclusion (see `C04_end_to_end_partial`). -/
-theorem C04_end_to_end_codec_partial (f32Str f64Str : Nat → String) (cast : Nat → Int → Bool → Nat → Option (Bool × Int))
+/-- **C04 end to end at the codec models — COMPLETE, every option**: with the external string parsers instantiated by the
+models of C14 (`Props.C16.codecExt`, what the correspondence driver runs), `ExtOK` is a theorem (`Props.C03.codecExt_ok`) and
+the hypothesis `hext` disappears; `Read.physical` is derived from `hcap`.  For every record type of the grammar (enums as
+Unions or — without data, under `enums_without_data_as_strings` — as dictionary-encoded strings; `string_dictionary_encoding`
+included) with at least one field that can be walked and mapped within the pass budget, `from_type` returns a schema,
+serializing any batch of well-typed values in scope (within the capacity bound) against it succeeds, and reading everything
+back returns the batch, normalised.  NO residual hypothesis (formerly `_partial` because of `hphys` in the conclusion). -/
+theorem C04_end_to_end_codec (f32Str f64Str : Nat → String) (cast : Nat → Int → Bool → Nat → Option (Bool × Int))
     (c : Trace.Code) (O : Trace.Options) (n : String) (fs : TFields) (vs : List Val)
     (h0 : O.overwrites = []) (hfrag : fragE (.struct n fs) = true) (hsz : sized (.struct n fs) = true) (hne : fs ≠ .nil)
     (hwt : ∀ v ∈ vs, wt (.struct n fs) v = true)
@@ -162,8 +174,7 @@ theorem C04_end_to_end_codec_partial (f32Str f64Str : Nat → String) (cast : Na
     (hcap : ((vs.map (ser (.struct n fs))).map (vsize (Props.C16.codecExt f32Str f64Str cast))).sum ≤ 2147483647) :
     ∃ fields arrs, Trace.fromType c O (toTraceTy (.struct n fs)) = .ok fields ∧
       toMarrow (Props.C16.codecExt f32Str f64Str cast) fields (vs.map (ser (.struct n fs))) = .ok arrs ∧
-      ((∀ a ∈ arrs, Read.physical a = true) →
-        readAll (toTarget (.struct n fs)) fields arrs = .ok (vs.map fun v => dvalOf (.struct n fs) (norm (.struct n fs) v))) :=
+      readAll (toTarget (.struct n fs)) fields arrs = .ok (vs.map fun v => dvalOf (.struct n fs) (norm (.struct n fs) v)) :=
   C04_end_to_end_partial c O _ n fs vs h0 hfrag hsz hne hwt hsc (Props.C03.codecExt_ok f32Str f64Str cast) hw hm hb hcap
 
 /-- **C04 end to end, COMPLETE, for traced schemas without Dictionary columns** (`string_dictionary_encoding` and
@@ -204,8 +215,7 @@ example : ∃ root, runRows {} exFields (exBatch.map (ser exFragRoot)) = .ok roo
 /-- the whole property on the enum-free example: nothing is assumed about `from_type` -/
 example : ∃ fields arrs, Trace.fromType .fixed exO (toTraceTy exFragRoot) = .ok fields ∧
     toMarrow {} fields (exBatch.map (ser exFragRoot)) = .ok arrs ∧
-    ((∀ a ∈ arrs, Read.physical a = true) →
-      readAll (toTarget exFragRoot) fields arrs = .ok (exBatch.map fun v => dvalOf exFragRoot (norm exFragRoot v))) :=
+    readAll (toTarget exFragRoot) fields arrs = .ok (exBatch.map fun v => dvalOf exFragRoot (norm exFragRoot v)) :=
   C04_end_to_end_partial .fixed exO {} "Root" _ exBatch rfl (by decide +kernel) (by decide +kernel) (by simp)
     (by decide +kernel) (by decide +kernel) exExtOK (by decide +kernel) (by decide +kernel) (by decide +kernel) (by decide +kernel)
 
@@ -219,8 +229,7 @@ example : fragE exRoot = true ∧ sized exRoot = true ∧ Trace.Spec.walkable ex
 
 example : ∃ fields arrs, Trace.fromType .fixed exEO (toTraceTy exRoot) = .ok fields ∧
     toMarrow {} fields (exEBatch.map (ser exRoot)) = .ok arrs ∧
-    ((∀ a ∈ arrs, Read.physical a = true) →
-      readAll (toTarget exRoot) fields arrs = .ok (exEBatch.map fun v => dvalOf exRoot (norm exRoot v))) :=
+    readAll (toTarget exRoot) fields arrs = .ok (exEBatch.map fun v => dvalOf exRoot (norm exRoot v)) :=
   C04_end_to_end_partial .fixed exEO {} "Root" _ exEBatch rfl (by decide +kernel) (by decide +kernel) (by simp)
     (by decide +kernel) (by decide +kernel) exExtOK (by decide +kernel) (by decide +kernel) (by decide +kernel) (by decide +kernel)
 
@@ -285,12 +294,11 @@ example : ∀ root0, newRoot exWFields = .ok root0 → ¬ Safe root0 := by
   revert this; decide +kernel
 
 /-- acceptance (`C04_accept`) and the end-to-end theorem (`C04_end_to_end_partial`) apply to it, every hypothesis
-discharged: the batch `None, Some(I { s: "x" }), None` is accepted against the traced schema and, the arrays being
-`physical`, read back as it is -/
+discharged: the batch `None, Some(I { s: "x" }), None` is accepted against the traced schema (a DICTIONARY column outside
+`Safe`) and read back as it is — nothing is assumed about the arrays -/
 example : ∃ fields arrs, Trace.fromType .fixed exDO (toTraceTy exSafeFalse) = .ok fields ∧
     toMarrow {} fields (exWBatch.map (ser exSafeFalse)) = .ok arrs ∧
-    ((∀ a ∈ arrs, Read.physical a = true) →
-      readAll (toTarget exSafeFalse) fields arrs = .ok (exWBatch.map fun v => dvalOf exSafeFalse (norm exSafeFalse v))) :=
+    readAll (toTarget exSafeFalse) fields arrs = .ok (exWBatch.map fun v => dvalOf exSafeFalse (norm exSafeFalse v)) :=
   C04_end_to_end_partial .fixed exDO {} "W" _ exWBatch rfl (by decide +kernel) (by decide +kernel) (by simp)
     (by decide +kernel) (by decide +kernel) exExtOK (by decide +kernel) (by decide +kernel) (by decide +kernel) (by decide +kernel)
 
